@@ -48,6 +48,18 @@ CHECKS = {
              "inside the 16-byte header, 2-3 symbolic chunks quick, up to 5 thorough) and whose EOF point is a solver variable over every byte offset; z3/path exploration "
              "shows the decoded PDU equals the unsegmented decode on every path and that every early EOF raises within the step budget.",
         note="Trusted: interpreter, the recv/recv_into/readexactly contracts as stubbed. More symbolic chunks and larger replies are outside the claim."),
+    "C13": dict(
+        text="RpcClient._create_request/_prepare_pdu (with Request.pack, SecTrailer.pack, VerificationTrailer.pack) are executed for each listed stub length with symbolic stub "
+             "content, context id and opnum against a recording security-context stub; z3 proves frag_len/auth_len, the 4-byte alignment of the verification trailer, the "
+             "16-byte alignment and pad_length of the security trailer, that exactly header|stub+pad|trailer reach wrap, and the wire layout. Reply side: exactly pad_length "
+             "bytes are stripped before GetKey.unpack_response for every listed (length, pad).",
+        note="Trusted: interpreter, z3, the security-context stub. Stub lengths are listed (0..48 and boundaries quick; 0..320 and boundaries thorough), not symbolic."),
+    "C15": dict(
+        text="SyncRpcClient.bind / AsyncRpcClient.bind are executed against a scripted authentication provider (1..4 legs, optional empty final token) and a scripted server "
+             "whose reply to each client PDU is chosen by the solver (proper ack with symbolic result vector / header-sign flag / token, bind_nak, fault, response, ack of the "
+             "wrong type, EOF); on every path that returns, the transcript is checked: tokens relayed in order exactly once, accepted contexts only, header signing = offered "
+             "and advertised by every ack, request only on an accepted context; every other script must raise.",
+        note="Trusted: interpreter, z3, the provider/server stubs. Scripts longer than legs+1 replies and fragmented replies (C14) are outside the claim."),
 }
 
 _PENDING = "check not built yet in this round (work in progress; see DESIGN.md for the plan)"
